@@ -11,7 +11,7 @@ COMMON_ASSUMPTIONS = [
 
 PROPS = {
     "C01": {
-        "rules": ["T4", "T5", "T11", "T6", "T3", "G1", "G1c", "G2", "G3", "G4", "G5", "K6"],
+        "rules": ["T4", "T5", "T11", "T6", "T3", "G1", "G1c", "G2", "G3", "G4", "G5", "K6", "T13"],
         "decides": "Per-keyword conformance skeleton: one type-guarded validator per keyword, spec comparison "
                    "operators, bool-aware deep JSON equality, member resolution cases, composition counting, "
                    "validate-all-then-construct, recursive parsing of every sub-schema position.",
@@ -20,7 +20,7 @@ PROPS = {
         "assumptions": ["Draft-6 validation spec section 6 frozen as keyword-keyed tables in the checker"],
     },
     "C02": {
-        "rules": ["K5", "T10", "T3", "N3", "G11", "T12", "T14", "T13", "D3"],
+        "rules": ["K5", "T10", "T3", "N3", "G11", "T12", "T14", "T13", "D3", "G10"],
         "decides": "schema text reaches emitted source only through repr()/checked emitters/identifiers; every "
                    "annotation name is importable; import discovery walks every keyword position; class names "
                    "are guarded; declaration order obligations of C11.",
@@ -40,20 +40,20 @@ PROPS = {
         "not_decided": "key collisions between JSON and Python names in the result; which composition branch builds it.",
     },
     "C05": {
-        "rules": ["G6", "G7", "K4", "K3"],
+        "rules": ["G6", "G7", "K4", "K3", "P1"],
         "decides": "the three-way default/marker/value decision and its never-an-error handler in Element.__call__ "
                    "and Object.__new__/__init__; required waived exactly for defaulted properties; placeholders "
                    "keyed in the look-up name space; defaults never tested by truthiness.",
         "not_decided": "conversion 'exactly as if supplied' for nested defaults beyond G6 + purity.",
     },
     "C06": {
-        "rules": ["T1", "T2", "T6", "K1", "K2", "K3", "K4", "K7", "D3"],
+        "rules": ["T1", "T2", "T6", "K1", "K2", "K3", "K4", "K7", "D3", "T13", "K9"],
         "decides": "structural preconditions of the round trip: parser, serializer, repr and class generator "
                    "enumerate the same keywords; nothing read is dropped; falsy values survive; names keep their kind.",
         "not_decided": "the identity itself.",
     },
     "C07": {
-        "rules": ["K1", "K3", "K7", "K5", "K8"],
+        "rules": ["K1", "K3", "K7", "K5", "K8", "K9", "G10"],
         "decides": "a default extracted from the schema is re-attached on every path, never filtered by "
                    "truthiness; only the auto-title annotation is stripped from literals; the description reaches "
                    "the docstring only through an escaping emitter.",
@@ -135,14 +135,14 @@ PROPS = {
         "assumptions": ["CPython subclass-first reflected rich comparison"],
     },
     "C18": {
-        "rules": ["T2", "R1", "R2", "P4"],
+        "rules": ["T2", "R1", "R2", "P4", "P1"],
         "decides": "every constructor parameter is stored under its own name so the signature-driven repr can read "
                    "it; repr skips exactly values equal to the parameter default and renders everything through "
                    "repr; no stray __repr__ overrides.",
         "not_decided": "eval(repr(x)) == x.",
     },
     "C19": {
-        "rules": ["G7", "A1", "A2", "A3", "G3"],
+        "rules": ["G7", "A1", "A2", "A3", "G3", "G2", "T5"],
         "decides": "Maybe[] dropped only for required-or-defaulted; leaf annotations agree with the type validator "
                    "and construct; union/list annotations draw from every contributing element; the composition "
                    "result comes from an element the annotation drew from.",
